@@ -13,7 +13,7 @@ def allowedRefusals : List String :=
 
 def spec (_net _net' : Net) (toks : List String) (ires : String) : Option String :=
   match toks with
-  | "reqjoin" :: _ =>
+  | "reqjoin" :: _ | "reqjoinrace" :: _ =>
     if ires.startsWith "ok:" || allowedRefusals.contains ires then none
     else some s!"join request answered with {ires}"
   | _ => none
